@@ -208,7 +208,7 @@ def monthly(reporting):
     got = names(c.disqualification)
     log = agg_bool_log()
     # the share of present readings per calendar month, in one of its spellings; another spelling is undecided, not wrong
-    recognise(len(log) == 1 and log[0][3] in ["apply:x.notna().mean()", "apply:x.notnull().mean()"] and log[0][2] == "any"
+    recognise(len(log) == 1 and log[0][3] == "apply:text:x.notna().mean()" and log[0][2] == "any"
               and log[0][7] == "groupby(index.month)", "monthly share of present temperature readings")
     check("C10.monthly.column", log[0][6] == "temperature")
     check("C10.monthly.threshold", log[0][4] == "Lt" and log[0][5] == 0.9)
@@ -269,7 +269,7 @@ def monthly_hourly(reporting, ghi):
     if reporting:
         check("C10.monthly_hourly.meter.not_for_reporting", And(got_m == [], len(log) == 0))
     else:
-        recognise(len(log) == 1 and log[0][3] in ["apply:x.notna().mean()", "apply:x.notnull().mean()"] and log[0][2] == "any"
+        recognise(len(log) == 1 and log[0][3] == "apply:text:x.notna().mean()" and log[0][2] == "any"
                   and log[0][7] == "groupby(index.month)", "monthly share of present usage readings")
         check("C10.monthly_hourly.meter.column", log[0][6] == "observed")
         check("C10.monthly_hourly.meter.threshold", log[0][4] == "Lt" and log[0][5] == 0.9)
@@ -283,7 +283,7 @@ def monthly_hourly(reporting, ghi):
     if not ghi:
         check("C10.monthly_hourly.ghi.absent", And(got_g == [], len(log2) == n0))
     else:
-        recognise(len(log2) == n0 + 1 and log2[n0][3] in ["apply:x.notna().mean()", "apply:x.notnull().mean()"] and log2[n0][2] == "any"
+        recognise(len(log2) == n0 + 1 and log2[n0][3] == "apply:text:x.notna().mean()" and log2[n0][2] == "any"
                   and log2[n0][7] == "groupby(index.month)", "monthly share of present irradiance readings")
         check("C10.monthly_hourly.ghi.column", log2[n0][6] == "ghi")
         check("C10.monthly_hourly.ghi.threshold", log2[n0][4] == "Lt" and log2[n0][5] == 0.9)
